@@ -29,6 +29,7 @@ type Batch struct {
 	HangS    int               // watchdog per run, seconds (0 = default 30)
 	Chunk    int               // runs per worker process (0 = default 1500)
 	Note     string            // for evidence
+	Sound    bool              // data race reports of this batch are reported as they are (not replayable, but never false)
 	DiffBase string            // if set (use "std" for the default build): runs are also executed by that variant and the event logs must be equal
 	Extra    map[string]string // free
 }
@@ -924,6 +925,14 @@ func RunCheck(spec *CheckSpec) int {
 				fmt.Printf("NOTE: unconfirmed %s of run %d (%s/%s) ignored\n", v.Rule, g.first.Report.Idx, g.first.Batch.Engine, g.first.Batch.Mode)
 				continue
 			}
+		}
+		if v.Rule == "RACE" && g.first.Batch.Sound {
+			path := writeReplay(spec, g.first, g.first.Report, spec.Seed)
+			fmt.Printf("violation: %s\n  %s\n  (reported by the race detector in a truly parallel run: not replayable by construction)\n", sig, v.Message)
+			fmt.Printf("VIOLATION property=%s replay=%s\n", spec.Property, path)
+			newViol = append(newViol, sig)
+			exit = 1
+			continue
 		}
 		if nMin >= 4 {
 			// enough distinct new violations minimised; report the rest unminimised
